@@ -10,12 +10,17 @@ TECH_D = "static analysis: repository-specific structural rules over the type-ch
 
 CLAIMS = {
  "C01": ("Decides the non-arithmetic part of well-formedness: (C01.a) the marker/mode protocol of the buffer, proved inductively over every exported Buffer method and every entry configuration; (C01.b) only redactable payloads are written in raw mode; (C01.d) every printer function restores mode/override on every normal and panicking exit; (C05.b) literal text is written in an escaped safe mode. Does not decide the byte arithmetic of the escape scanner.", "§5 C01", TECH_AB),
+ "C16": ("All entry points follow one protocol around doPrint*/doPrintf with the caller's arguments unchanged (C16.a), F* variants deliver one Write of the taken bytes and return the writer's results (C16.b), the builder route sets raw mode then prints into its own buffer (C16.c), the nested route borrows and hands back the buffer and is cleared before free (C16.d). Equality up to merging of adjacent envelopes is not decided.", "§5 C16", TECH_D),
+ "C17": ("Dispatch order in the method dispatcher by CFG edge-cut reachability (C17.a), arguments handed to the hook and to SafeFormat/Format incl. the %w rewrite (C17.b), dispatcher reached on all three detection routes (C17.c), bypass under Unsafe in every reachable configuration (C06.e), who writes/reads the hook variable (C17.e), containment of hook panics (C11.c, C11.g). What an installed hook renders is user code.", "§5 C17", TECH_D + " + Engine A events"),
  "C02": ("Static non-interference for explicit flows: (C02.a) no operand-derived value reaches a buffer write outside unsafe mode unless a safe override is in force, for every (kind, verb) branch and every reachable configuration. Implicit flows and the numeric renderings are not decided.", "§5 C02", TECH_AB),
  "C03": ("(C03.a) line splitting is requested exactly when unsafe data is sealed, in every reachable buffer configuration; with C01.a/I2 every envelope is escaped-and-split before it is closed. The splitter's byte arithmetic is not decided.", "§5 C03", TECH_A),
+ "C04": ("(C04.a) print.go/format.go are exactly import base + recorded patch, and every function of the import base equals the standard library's fmt function of the same name (or differs from it exactly by the recorded upstream evolution); (C04.b) writePadding, which the fork rewrote, emits exactly n pad bytes. A sufficient-side cross-check of the fork's own mechanism for fidelity; it does not audit the instrumentation hunks themselves (those are decided by C01/C02/C05) and says nothing about fmtsort.", "§5 C04", "static analysis: fork conformance — reverse application of the recorded patch, function-by-function comparison of the normalised import base with the reference fmt sources (cross-checking siblings), structural SSA rule for writePadding"),
  "C05": ("Both directions of the classification at the granularity of write events: nothing tainted outside (C02.a), no public text inside envelopes (C05.b), full rendering of safe values visible (C05.c), state restored after every leaf at every depth on every exit (C01.d).", "§5 C05", TECH_AB),
  "C06": ("The override discipline over every re-entrant path: (C06.a) every write under an effective unsafe context (own or borrowed through nested printers) is enveloped; (C05.c) safe override keeps writes visible; (C06.c) outermost wins in the four start* helpers; (C06.e) redact-specific dispatch is bypassed under Unsafe().", "§5 C06", TECH_AB),
  "C07": ("Decides the two marker patterns as regular languages (DFA construction from regexp/syntax, equivalence with start·(Σ∖{start,end})*·end and {start,end}, prefix-freeness), the replacement constants that make Redact/StripMarkers/EscapeMarkers exact and idempotent, and agreement of the string and []byte variants. Trusts Go's regexp for leftmost-first matching and ReplaceAll.", "§5 C07", "static analysis: constant folding of the pattern expressions + regular-language decision procedure (regexp/syntax program -> DFA, product-automaton equivalence)"),
  "C08": ("(C08.a) redactable operands are inlined raw by a direct buffer write in every configuration outside Unsafe(), escaped inside; (C08.b) a redactable operand flows nowhere else. The induction over re-print histories is an argument, not an analysis result.", "§5 C08", TECH_AB),
+ "C09": ("Per SafeWriter method and per implementation: side from the parameter type, exactly one buffer write on the single path, payload is the parameter, mode of its side in every reachable configuration, verb/signedness agreement of the numeric emitters, fmt.State writes are unsafe; with C01.a/C01.b for the buffer below and C16.c for the builder's print route. The two textual equalities for arbitrary payloads need the escaper's arithmetic and are not decided.", "§5 C09", TECH_AB + " + structural SSA rules"),
+ "C10": ("(C07) the regex half exactly; (C10.scan) structural necessary conditions of the byte scanner: start offset, window length = marker length, tight look-ahead guard, skip lengths, plain iterations advance by one, dangling-tail rule on every path; (C10.b) EscapeBytes shape; (C10.f) copy-on-write, path-sensitively; (C10.g) plain writes never escape or validate; (C03.c) splitter shape. Byte-exactness for all contents is not decided.", "§5 C10", TECH_D + " + path-sensitive abstract interpretation for copy-on-write"),
  "C11": ("Containment of user-method panics: (C11.c) no uncontained panicking exit from the dispatcher, re-raise only for nested panics, the panic report is written in the caller's classification; (C01.d) restorers run on panic paths.", "§5 C11", TECH_A),
  "C12": ("Pool hygiene (C12.b): every printer handed to sync.Pool.Put has no override, no captured error, a reset buffer; newPrinter re-establishes the per-call flags. No schedule is explored.", "§5 C12", TECH_A),
  "C14": ("MakeFormat is interpreted abstractly for all 2^7 fmt.State configurations x 4 verb classes and must return exactly the directive; pp.Flag for all 2^7 flag states x 6 characters; the wrappers and ReproducePrintf are checked structurally. The concrete round trip through fmt's parser is not executed.", "§5 C14", "static analysis: exhaustive abstract interpretation of MakeFormat/pp.Flag over their finite configuration space (go/ssa) + structural SSA rules"),
